@@ -47,6 +47,7 @@ func (w World) Get(d string) string {
 type Params struct {
 	Seed    int64
 	MutBit  int  // bit index inside the mutated region (mut != none), taken modulo the region size
+	MutMulti int // > 0: instead of one bit, that many random bytes of the region are overwritten (at least one changes)
 	AltBit  int  // for *Alter = memberBit: -1 = the canonical harmless digit flip; else bit index modulo member size
 	WallNow bool // true: validity windows are centred on the wall clock (for Options.Now == nil runs)
 	// Header / Body (optional): use these bytes as the quote header (48) and TD body (584) instead of random ones
@@ -109,6 +110,27 @@ func otherPKI(s string) string {
 		return "B"
 	}
 	return "A"
+}
+
+// mutateRegion applies the post-signing mutation of a region: one bit, or several random bytes.
+func mutateRegion(b []byte, p Params, rng *rand.Rand) {
+	if p.MutMulti <= 0 || len(b) == 0 {
+		flipBit(b, p.MutBit)
+		return
+	}
+	r2 := rand.New(rand.NewSource(p.Seed ^ int64(p.MutBit)*2654435761))
+	changed := false
+	for i := 0; i < p.MutMulti; i++ {
+		j := r2.Intn(len(b))
+		v := byte(r2.Intn(256))
+		if v != b[j] {
+			changed = true
+		}
+		b[j] = v
+	}
+	if !changed {
+		b[r2.Intn(len(b))] ^= 0x01
+	}
 }
 
 func flipBit(b []byte, bit int) {
@@ -187,9 +209,14 @@ func Build(w World, p Params) *Concrete {
 	for _, n := range ClockNames {
 		c.Clocks[n] = t0
 	}
+	if w.Get("time") == "spread" && !p.WallNow {
+		for i, n := range ClockNames { // pairwise distinct, all far inside every window
+			c.Clocks[n] = t0.Add(time.Duration(1+i*7+rng.Intn(5)) * time.Hour)
+		}
+	}
 	if p.WallNow && p.LeafExpiresIn > 0 {
 		win["leaf"] = window{farNB, t0.Add(p.LeafExpiresIn)}
-	} else if tv := w.Get("time"); tv != "none" {
+	} else if tv := w.Get("time"); tv != "none" && tv != "spread" {
 		if p.WallNow {
 			c.Unrealizable = "time dimension needs explicit clocks"
 			return c
@@ -494,29 +521,29 @@ func Build(w World, p Params) *Concrete {
 		// every bit of the header is covered by the signature; bits that make the quote
 		// unparsable are rejected for that reason, which is still a rejection.
 		c.MutRegionBits = len(q.Header) * 8
-		flipBit(q.Header, p.MutBit)
+		mutateRegion(q.Header, p, rng)
 	case "body":
 		c.MutRegionBits = len(q.Body) * 8
-		flipBit(q.Body, p.MutBit)
+		mutateRegion(q.Body, p, rng)
 	case "ak":
 		c.MutRegionBits = len(q.AK) * 8
-		flipBit(q.AK, p.MutBit)
+		mutateRegion(q.AK, p, rng)
 	case "qeReport":
 		c.MutRegionBits = len(q.QEReport) * 8
-		flipBit(q.QEReport, p.MutBit)
+		mutateRegion(q.QEReport, p, rng)
 	case "authData":
 		if len(q.Auth) == 0 {
 			c.Unrealizable = "no auth data to mutate"
 			return c
 		}
 		c.MutRegionBits = len(q.Auth) * 8
-		flipBit(q.Auth, p.MutBit)
+		mutateRegion(q.Auth, p, rng)
 	case "sig":
 		c.MutRegionBits = len(q.Sig) * 8
-		flipBit(q.Sig, p.MutBit)
+		mutateRegion(q.Sig, p, rng)
 	case "qeSig":
 		c.MutRegionBits = len(q.QESig) * 8
-		flipBit(q.QESig, p.MutBit)
+		mutateRegion(q.QESig, p, rng)
 	default:
 		panic("bad mut")
 	}
@@ -915,6 +942,13 @@ func Build(w World, p Params) *Concrete {
 			hdr[hdrName] = []string{IssuerChainHeader(hdrCerts[1], hdrCerts[0])}
 		case "threeCerts":
 			hdr[hdrName] = []string{IssuerChainHeader(hdrCerts[0], hdrCerts[1], hdrCerts[1])}
+		case "bitflip": // one bit of the DER of the signing or of the root certificate (the decoded DER differs by construction)
+			which := rng.Intn(2)
+			d := append([]byte{}, hdrCerts[which]...)
+			flipBit(d, 8*4+rng.Intn(8*(len(d)-4)))
+			cs2 := [][]byte{hdrCerts[0], hdrCerts[1]}
+			cs2[which] = d
+			hdr[hdrName] = []string{IssuerChainHeader(cs2...)}
 		default:
 			panic("bad hdr dim")
 		}
